@@ -208,7 +208,8 @@ def rule_defassign(model: Model, funcs: list[Func], exceptions: dict | None = No
             k = key(f, "DEFASSIGN", name)
             if name in names_bad:
                 u = names_bad[name]
-                exc = exceptions.get((f.short, name))
+                from .flow import var_signature
+                exc = exceptions.get((f.short, "sig:" + var_signature(f.node, name)))
                 if exc:
                     obs.append(Ob("DEFASSIGN", k, INFO, model.where(f, u.node), name, f"excepted: {exc}"))
                     continue
@@ -422,3 +423,23 @@ def names_read(e: ast.AST) -> set:
             except Exception:
                 pass
     return out
+
+
+# --------------------------------------------------------------------------- name-independent recognition of the order
+
+def order_names(fn) -> set:
+    """locals bound to a length (the order d of a train), whatever they are called"""
+    out = set()
+    for n in ast.walk(fn):
+        if isinstance(n, ast.Assign) and len(n.targets) == 1 and isinstance(n.targets[0], ast.Name) and isinstance(n.value, ast.Call) \
+                and isinstance(n.value.func, ast.Name) and n.value.func.id == "len":
+            out.add(n.targets[0].id)
+    return out
+
+
+def is_order(e, orders) -> bool:
+    return (isinstance(e, ast.Name) and e.id in orders) or (isinstance(e, ast.Call) and isinstance(e.func, ast.Name) and e.func.id == "len")
+
+
+def is_order_minus_one(e, orders) -> bool:
+    return isinstance(e, ast.BinOp) and isinstance(e.op, ast.Sub) and is_order(e.left, orders) and isinstance(e.right, ast.Constant) and e.right.value == 1
